@@ -39,7 +39,7 @@ def model(chk: Check, tier: str, prefix="C13"):
 
     def one(cfg):       # the three callback regimes side by side; action counts (-coverage) for the vacuity gates
         return run_tlc("MC_Client", cfg, name="MC_Client-" + cfg[10:-4], timeout=7200, coverage=(tier != "thorough"), workers=6,
-                       heap="12g" if tier == "thorough" else "3g")
+                       heap="12g" if tier == "thorough" else "6g")
     with ThreadPoolExecutor(3) as ex:
         results = list(ex.map(one, cfgs))
     for cfg, r in zip(cfgs, results):
